@@ -1212,6 +1212,7 @@ peg::parser! {
 
         // A closing bracket inside quotes, or after a backslash, is part of the key.
         rule literal_array_key_piece() -> () =
+            "$'" ("\\" [_] / !"'" [_])* "'" {} /
             "'" (!"'" [_])* "'" {} /
             "\"" ("\\" [_] / !"\"" [_])* "\"" {} /
             "\\" [_] {} /
